@@ -576,6 +576,7 @@ fn dump_body<'tcx>(tcx: TyCtxt<'tcx>, owner: LocalDefId, body: &Body<'tcx>, out:
         DefKind::AssocFn => "assoc_fn",
         DefKind::Closure => "closure",
         DefKind::SyntheticCoroutineBody => "synthetic_coroutine",
+        DefKind::Const { .. } | DefKind::AssocConst { .. } => "const",
         _ => return,
     };
     let env = TypingEnv::post_analysis(tcx, did);
@@ -722,7 +723,12 @@ fn dump_crate<'tcx>(tcx: TyCtxt<'tcx>, name: &str) -> String {
         .filter(|o| {
             matches!(
                 tcx.def_kind(o.to_def_id()),
-                DefKind::Fn | DefKind::AssocFn | DefKind::Closure | DefKind::SyntheticCoroutineBody
+                DefKind::Fn
+                    | DefKind::AssocFn
+                    | DefKind::Closure
+                    | DefKind::SyntheticCoroutineBody
+                    | DefKind::Const { .. }
+                    | DefKind::AssocConst { .. }
             )
         })
         .collect();
@@ -749,7 +755,8 @@ fn dump_crate<'tcx>(tcx: TyCtxt<'tcx>, name: &str) -> String {
         if !first.is_empty() && first.contains(&dpath(tcx, d)) {
             return 0;
         }
-        let is_const = matches!(k, DefKind::Fn | DefKind::AssocFn) && tcx.is_const_fn(d);
+        let is_const = (matches!(k, DefKind::Fn | DefKind::AssocFn) && tcx.is_const_fn(d))
+            || matches!(k, DefKind::Const { .. } | DefKind::AssocConst { .. });
         if is_const {
             return 1;
         }
